@@ -126,7 +126,7 @@ fn corpus_space() -> &'static CorpusSpace {
     })
 }
 /// quick tier: every file unmutated and every QUICK_MUTANT_STRIDE-th mutant
-const QUICK_MUTANT_STRIDE: u64 = 6;
+const QUICK_MUTANT_STRIDE: u64 = 8;
 /// quick tier: mutants only of files up to this size (the larger ones pull in libraries and cost seconds per run)
 const QUICK_MUTANT_MAX_BYTES: usize = 1200;
 fn n_corpus() -> u64 {
